@@ -142,7 +142,7 @@ type rangeResp struct {
 
 const (
 	childASLimit  = 4 << 30  // hard cap: RLIMIT_AS
-	childHeapStop = 64 << 20 // the child stops itself when its heap passes this: a result of <= 1000 int64 never needs it
+	childHeapStop = 16 << 20 // the child stops itself when its heap passes this: a result of <= 1000 int64 never needs it
 	batchWatchdog = 60 * time.Second
 )
 
@@ -153,7 +153,7 @@ func rangeChild() {
 	go func() {
 		s := []metrics.Sample{{Name: "/memory/classes/heap/objects:bytes"}}
 		for {
-			time.Sleep(2 * time.Millisecond)
+			time.Sleep(time.Millisecond)
 			metrics.Read(s)
 			if h := s[0].Value.Uint64(); h > childHeapStop {
 				outMu.Lock()
